@@ -49,6 +49,11 @@ type Draw struct {
 	V    F
 }
 
+type axEntry struct {
+	fact      *Term
+	permanent bool
+}
+
 type footprint struct {
 	start  int
 	writes []string
@@ -83,6 +88,7 @@ type Exec struct {
 	res     *PathResult
 	draws   []Draw
 	axDone  map[string]bool
+	axByTrig map[int][]*axEntry
 	nondets map[string]*Term // every nondet variable created on this path
 	ranges  map[string][2]int64
 	closureCalls map[*Closure]int
@@ -129,6 +135,7 @@ func (ex *Exec) RunPath(fn *ssa.Function, trail []int) (res *PathResult, newTrai
 	ex.globals = map[*ssa.Global]*Cell{}
 	ex.draws = nil
 	ex.axDone = map[string]bool{}
+	ex.axByTrig = map[int][]*axEntry{}
 	ex.nondets = map[string]*Term{}
 	ex.ranges = map[string][2]int64{}
 	ex.closureCalls = map[*Closure]int{}
@@ -203,6 +210,11 @@ func (ex *Exec) addPC(c *Term) {
 		ex.pcKey = "h" + strconv.FormatUint(h, 36)
 	}
 	ex.sol.Assert(c)
+	axs, _ := ex.relevantAxioms([]*Term{c})
+	for _, e := range axs {
+		e.permanent = true
+		ex.sol.Assert(e.fact)
+	}
 	// learn equalities var == const
 	if c.op == "eq" {
 		a, b := c.args[0], c.args[1]
@@ -226,7 +238,7 @@ func (ex *Exec) feasible(c *Term) bool {
 	if v, ok := ex.feasMemo[key]; ok {
 		return v
 	}
-	r, _ := ex.sol.Check([]*Term{c}, nil)
+	r, _ := ex.check([]*Term{c}, nil)
 	v := r != "unsat"
 	ex.feasMemo[key] = v
 	return v
@@ -272,7 +284,7 @@ func (ex *Exec) concretise(t *Term, what string) int64 {
 	if !ok {
 		var excl []*Term
 		for len(vals) <= 40 {
-			r, m := ex.sol.Check(excl, []*Term{t})
+			r, m := ex.check(excl, []*Term{t})
 			if r != "sat" {
 				if r != "unsat" {
 					ex.res.Undischarged = append(ex.res.Undischarged, "concretise "+what+": solver "+r)
@@ -1491,7 +1503,7 @@ func (ex *Exec) floatOp(op token.Token, a, b F) Value {
 		m := tb.RMul(a.T, b.T)
 		if a.T == b.T && m.op == "rmul" {
 			// ground lemma: a square is non-negative
-			ex.axiom("sq"+strconv.Itoa(m.id), tb.RLe(tb.Rat(ratZero), m))
+			ex.axiomT(m, "sq"+strconv.Itoa(m.id), tb.RLe(tb.Rat(ratZero), m))
 		}
 		return F{T: m, D: d}
 	case token.QUO:
